@@ -1754,6 +1754,8 @@ class _Skel:
                 pre = [self.taint(st)]
             elif val is not None and not self.inert(val):
                 pre = self.calls(val) + [self.eff()]
+            elif isinstance(st, ast.Return) and val is not None and not (isinstance(val, ast.Constant) and val.value is None):
+                pre = [self.eff()]          # a returned value is data handed to the caller: only a bare `return` is quiet
             return self.seq(pre + [f'(KJump {JUMPS[type(st)]})'])
         if isinstance(st, ast.If):
             a, b = self.block(st.body), self.block(st.orelse)
